@@ -1,7 +1,7 @@
 """C07 checksum: theorem Props.C07 + correspondence stream `chk`"""
 import vlib
 
-THEOREMS = ['C07_value', 'C07_reads', 'C07_remainder', 'C07_in_buffer']
+THEOREMS = ['C07_value', 'C07_reads', 'C07_remainder', 'C07_in_buffer', 'C07_lt', 'C07_split']
 
 
 def hexs(bs):
